@@ -35,8 +35,14 @@ CONSTANTS A1, N1, A2, N2, A3, N3, A4, N4, A5, N5, A6, N6,   \* token alphabets a
           MAX,        \* largest value of the signed integer type (operational side)
           MaxDigits,  \* the decimal digits of the machine's MAX for the declarative range rule
           Extra,      \* further texts: boundary families (a set)
-          ExtraSeq    \* further texts read from a file (a sequence; explored from NRoots root states
+          ExtraSeq,   \* further texts read from a file (a sequence; explored from NRoots root states
                       \* so that TLC's workers share them)
+          BufCap,     \* capacity of decimal.set's digit buffer (800 in the code); 0 = not modelled
+          LosesIntegerDigits
+                      \* NAMED DEVIATION (as built, in the code and in the standard library it was copied
+                      \* from): integer digits that no longer fit the buffer are dropped WITHOUT moving
+                      \* the decimal point, so a text with more than BufCap integer digits is read as a
+                      \* number 10^(dropped) times too small.  FALSE = normative, TRUE in NumLit_asbuilt.cfg
 
 -----------------------------------------------------------------------------
 \* characters
@@ -259,16 +265,20 @@ ScanOp(s, allowHex) ==
              IF c = "_" THEN Mant([st EXCEPT !.i = @ + 1])
              ELSE IF c = "." THEN
                   (IF st.sawdot THEN [st EXCEPT !.bad = TRUE]
-                   ELSE Mant([st EXCEPT !.i = @ + 1, !.sawdot = TRUE, !.dp = st.nd]))
+                   ELSE Mant([st EXCEPT !.i = @ + 1, !.sawdot = TRUE, !.dp = st.nd + st.lost]))
              ELSE IF c \in DecDigit THEN
                   (IF c = "0" /\ st.nd = 0
                    THEN Mant([st EXCEPT !.i = @ + 1, !.sawdigits = TRUE, !.dp = @ - 1])
+                   ELSE IF ~allowHex /\ BufCap > 0 /\ st.nd >= BufCap          \* decimal.set: b.nd < len(b.d) fails
+                   THEN Mant([st EXCEPT !.i = @ + 1, !.sawdigits = TRUE, !.trunc = @ \/ c # "0",
+                                        !.lost = IF st.sawdot \/ LosesIntegerDigits THEN @ ELSE @ + 1])
                    ELSE Mant([st EXCEPT !.i = @ + 1, !.sawdigits = TRUE, !.nd = @ + 1, !.digits = Append(@, c)]))
              ELSE IF hex /\ Lw(c) \in HexLetter THEN
                   Mant([st EXCEPT !.i = @ + 1, !.sawdigits = TRUE, !.nd = @ + 1, !.digits = Append(@, Lw(c))])
              ELSE st                                                       \* break
-      m   == Mant([i |-> i2, sawdot |-> FALSE, sawdigits |-> FALSE, nd |-> 0, dp |-> 0, digits |-> <<>>, bad |-> FALSE])
-      dp0 == IF m.sawdot THEN m.dp ELSE m.nd
+      m   == Mant([i |-> i2, sawdot |-> FALSE, sawdigits |-> FALSE, nd |-> 0, dp |-> 0, digits |-> <<>>, bad |-> FALSE,
+                   trunc |-> FALSE, lost |-> 0])       \* lost: dropped integer digits that still count for the point
+      dp0 == IF m.sawdot THEN m.dp ELSE m.nd + m.lost
       dp1 == IF hex THEN dp0 * 4 ELSE dp0
       ndm == IF hex THEN m.nd * 4 ELSE m.nd
       hasExp == m.i <= n /\ Lw(s[m.i]) = expChar
@@ -283,7 +293,7 @@ ScanOp(s, allowHex) ==
         ELSE <<j, e>>
       x   == ExpLoop(j1, 0)
       fin(iend, dp) == IF iend # n + 1 THEN Reject
-                       ELSE [ok |-> TRUE, hex |-> hex, neg |-> neg, digits |-> m.digits,
+                       ELSE [ok |-> TRUE, hex |-> hex, neg |-> neg, digits |-> m.digits, trunc |-> m.trunc,
                              exp |-> IF m.nd = 0 THEN 0 ELSE dp - ndm]
   IN IF n = 0 THEN Reject
      ELSE IF i1 > n THEN                                                   \* a sign only: falls into "!sawdigits"
@@ -300,14 +310,18 @@ Bad == <<"bad", 0, <<>>, 0>>
 ScanDenot(r) == <<IF r.hex THEN "hex" ELSE "dec", IF r.neg THEN 1 ELSE 0, r.digits, r.exp>>
 
 \* ParseFloat / atof64: underscoreOK, special, readFloat; hex -> atofHex; decimal -> exact path
-\* or decimal.set + floatBits; readFloat failed -> decimal.set decides
+\* or decimal.set + floatBits; readFloat failed -> decimal.set decides.  readFloat's own 19-digit
+\* accumulator is not modelled (it counts the digits it drops, see nd/ndMant in the code); the
+\* 800-digit buffer of decimal.set is, when BufCap > 0.
 ParseFloatOp(s) ==
   IF ~UnderscoreOKOp(s) THEN Bad
   ELSE LET sp == SpecialOp(s) IN
        IF sp # NoSpecial THEN <<sp[1], sp[2], <<>>, 0>>
-       ELSE LET r == ScanOp(s, TRUE) IN
-            IF r.ok THEN ScanDenot(r)
-            ELSE LET d == ScanOp(s, FALSE) IN IF d.ok THEN ScanDenot(d) ELSE Bad
+       ELSE LET r == ScanOp(s, TRUE)  d == ScanOp(s, FALSE) IN
+            IF r.ok /\ r.hex THEN ScanDenot(r)
+            ELSE IF r.ok THEN (IF d.ok THEN ScanDenot(d) ELSE Bad)   \* exact path (all digits held, where both
+                                                                    \* scanners agree) or decimal.set + floatBits
+            ELSE IF d.ok THEN ScanDenot(d) ELSE Bad
 
 \* atof of benchfmt/reader.go: the integer fast path
 FastFallback == [ok |-> FALSE, val |-> 0, peak |-> 0]
@@ -374,17 +388,19 @@ Alpha(k) == CASE k = 1 -> A1 [] k = 2 -> A2 [] k = 3 -> A3 [] k = 4 -> A4 [] k =
 Bound(k) == CASE k = 1 -> N1 [] k = 2 -> N2 [] k = 3 -> N3 [] k = 4 -> N4 [] k = 5 -> N5 [] k = 6 -> N6
 
 NRoots == 16
+ExtraTexts == ExtraSeq      \* a definition of its own: TLC evaluates it once (a substituted constant is
+                            \* re-evaluated at every use, i.e. the file would be read again each time)
 VARIABLES toks, fam
 vars == <<toks, fam>>
 Init == \/ fam \in 1..6 /\ toks = <<>>
         \/ fam = 0 /\ toks \in Extra
-        \/ ExtraSeq # <<>> /\ fam \in {-r : r \in 1..NRoots} /\ toks = <<>>
+        \/ ExtraTexts # <<>> /\ fam \in {-r : r \in 1..NRoots} /\ toks = <<>>
 Next == \/ /\ fam \in 1..6
            /\ Len(toks) < Bound(fam)
            /\ \E a \in Alpha(fam) : toks' = Append(toks, a)
            /\ fam' = fam
         \/ /\ fam < 0
-           /\ \E i \in 1..Len(ExtraSeq) : i % NRoots = (-fam) - 1 /\ toks' = ExtraSeq[i]
+           /\ \E i \in 1..Len(ExtraTexts) : i % NRoots = (-fam) - 1 /\ toks' = ExtraTexts[i]
            /\ fam' = 0
 Spec == Init /\ [][Next]_vars
 
@@ -411,7 +427,12 @@ UnderscoreAgree == UnderscoresOK(Text) = UnderscoreOKOp(Text)
 \* the exact number"): then both exponents are beyond anything a text of this length can bring
 \* back into float64's range, with the same sign.
 DenotAgree ==
-  LET d == Denot(Text)  o == ParseFloatOp(Text) IN
+  LET d0 == Denot(Text)  o == ParseFloatOp(Text)
+      cut == d0[1] = "dec" /\ BufCap > 0 /\ Len(d0[3]) > BufCap
+      \* beyond the buffer the scanner keeps the first BufCap digits (and a sticky flag): the same
+      \* number up to one unit of the last kept digit
+      d  == IF cut THEN <<d0[1], d0[2], SubSeq(d0[3], 1, BufCap), d0[4] + (Len(d0[3]) - BufCap)>> ELSE d0
+  IN
   /\ o[1] = d[1] /\ o[2] = d[2] /\ o[3] = d[3]
   /\ \/ o[4] = d[4]
      \/ /\ SeqValue(FloatParts(Text).ed, 10) >= 10000
@@ -422,7 +443,7 @@ DenotAgree ==
 \* decimal texts, and decimal.set must not accept what readFloat refused
 ScannersAgree ==
   LET r == ScanOp(Text, TRUE)  d == ScanOp(Text, FALSE) IN
-  /\ (r.ok /\ ~r.hex) => (d.ok /\ ScanDenot(d) = ScanDenot(r))
+  /\ (r.ok /\ ~r.hex) => (d.ok /\ ((BufCap = 0 \/ Len(r.digits) <= BufCap) => ScanDenot(d) = ScanDenot(r)))
   /\ ~r.ok => ~d.ok
 
 AllDigits(s) == \A i \in 1..Len(s) : s[i] \in DecDigit
